@@ -293,6 +293,14 @@ def cmdResolve (family mode zones cache script question expect impl : String) : 
                   | some .nameError, some soa =>
                     if io.kind = "nxdomain" && io.soa == some soa && io.log.isEmpty then []
                     else ["fail:C01:authoritative-nameerror-not-reported"]
+                  | some (.cname _ rr), some _ =>
+                    -- the zone answers the alias itself: its CNAME record leads the answer and the question
+                    -- as asked never goes upstream (only the alias target may, if it is delegated away)
+                    (if io.kind = "nxdomain" then ["fail:C01:nxdomain-not-from-zone"] else [])
+                    ++ (if okRes && q.qtype != RT_CNAME && !isWildcardQ q.qtype && io.rrs.head? != some rr
+                        then ["fail:C01:local-alias-record-not-leading-the-answer"] else [])
+                    ++ (if io.logFull.any (fun e => e.2.2.1 == showName q.name)
+                        then ["fail:C01:locally-answered-question-sent-upstream"] else [])
                   | _, _ => if io.kind = "nxdomain" then ["fail:C01:nxdomain-not-from-zone"] else []
                 else
                   (if io.kind = "nxdomain" then ["fail:C01:nxdomain-from-nonauthoritative"] else [])
